@@ -1,7 +1,12 @@
 /-
 Executable Spec of C08 over what consumers, the caller of `Provider.Run` and the caller of `Engine.Run` observe in
 one cell (kind, preload, limit, passes, n entries, consumers, mode …).  `M = min⁺(limit, passes·n)` (bounds that are
-0 are absent; no bound at all = unbounded).
+0 are absent; no bound at all = unbounded).  `n` = the entries one pass delivers: every entry of the file, or (round 4) with a
+`chosencases` option those whose tag is listed (`pick=`; the file then has `fileN ≥ n` entries).  limit and passes range
+over ALL values of the options (round 4: also "practically unbounded" ones above 2^63).  The data source of the generic
+JSON provider (`src=`) is a file, inline data or a reader; one that cannot be rewound (a plain io.Reader, a bytes.Buffer) is
+read once whatever `passes` says — the Spec is then evaluated with passes = 1 (`skip:source-cannot-be-rewound` where that
+differs from what the option asks for).
 
 mode drain (consumers always ready; the context is cancelled by the consumer that makes the `cap`-th acquisition):
   * exactly `min(cap, M)` ammo are acquired — exactly `M` when nobody cancels, and with no bound every finite prefix:
@@ -56,6 +61,7 @@ structure Cell where
   n : Nat
   cap : Nat      -- the context is cancelled when `cap` ammo have been acquired (0 = never)
   pad : Nat := 0 -- every entry of the ammo file is padded with this many bytes
+  fileN : Nat := 0 -- != 0: the cell has a chosencases option; the file has `fileN` entries of which a pass delivers `n`
   deriving Repr
 
 structure Obs where
@@ -84,6 +90,11 @@ position of blank lines too; the harness' files have at most n + 7 such lines); 
 constructor's reads -/
 def opsBound (sent n pad : Nat) : Nat := 3 * (sent + n) + (sent / n + 3) * ((n * (pad + 256)) / 512 + 2 * n + 18) + 8
 
+/-- the same for a file of `fileN` entries of which a pass delivers `k` (chosencases): `sent` ammo need `sent / k` passes,
+each of which reads the whole file -/
+def opsBoundF (sent k fileN pad : Nat) : Nat :=
+  3 * ((sent / k + 2) * fileN) + (sent / k + 3) * ((fileN * (pad + 256)) / 512 + 2 * fileN + 18) + 8
+
 /-- what a drain cell has to deliver: `min(cap, M)`, `cap = 0` = nobody cancels (such a cell must be bounded) -/
 def want (c : Cell) : Nat :=
   match expected c.limit c.passes c.n with
@@ -105,7 +116,7 @@ def endOk (o : Obs) : Bool := o.end_ == .closed
 /-- no spin: a bounded provider sends at most its bound (also when the harness cut the cell earlier) -/
 def spinOk (c : Cell) (o : Obs) : Bool :=
   match expected c.limit c.passes c.n with
-  | some m => decide (o.ops ≤ opsBound m c.n c.pad)
+  | some m => decide (o.ops ≤ if c.fileN = 0 then opsBound m c.n c.pad else opsBoundF m c.n c.fileN c.pad)
   | none => true
 
 def holds (c : Cell) (o : Obs) : Bool :=
